@@ -99,8 +99,9 @@ def main(tier):
         leaves = result_leaves(fx, f)
         succ = [l for l in leaves if l[0] in ("call", "value")]
         bad = [l[1] for l in succ if not (l[0] == "call" and l[1].endswith(leafname))]
-        guarded = all(any("is_iso" in c and ch is False for c, ch in l[2]) for l in succ)
-        nonisoerr = {l[1] for l in leaves if l[0] == "err" and any("is_iso" in c and ch is True for c, ch in l[2])}
+        # decisions are recorded on the positive atom `is_iso(..)` whatever polarity the source tests
+        guarded = all(any("is_iso" in c and ch is True for c, ch in l[2]) for l in succ)
+        nonisoerr = {l[1] for l in leaves if l[0] == "err" and any("is_iso" in c and ch is False for c, ch in l[2])}
         run.check(succ and not bad and guarded and nonisoerr == {"Range"}, rule, ty.rsplit("::", 1)[-1],
                   "success only via %s behind the ISO-calendar check" % leafname,
                   "%s::from_str: success leaves %s, ISO check on every success path: %s, non-ISO -> %s" %
